@@ -158,7 +158,6 @@ vnacal_parameter_t *_vnacal_alloc_parameter(const char *function, vnacal_t *vcp)
 	    ++parameter;
 	    assert(parameter < vprmcp->vprmc_allocation);
 	}
-	vprmcp->vprmc_first_free = parameter + 1;
 
     } else {
 	vnacal_parameter_t **vpmrpp;
@@ -203,6 +202,9 @@ vnacal_parameter_t *_vnacal_alloc_parameter(const char *function, vnacal_t *vcp)
     vpmrp->vpmr_vcp = vcp;
     vprmcp->vprmc_vector[parameter] = vpmrp;
     ++vprmcp->vprmc_count;
+    if (parameter >= vprmcp->vprmc_first_free) {
+	vprmcp->vprmc_first_free = parameter + 1;
+    }
     return vpmrp;
 }
 
